@@ -509,6 +509,10 @@ class FA:
                 ops = v.args[0]
                 if i < len(ops):
                     return ops[i]
+            if v.op == "closure":
+                ops = v.args[1]
+                if i < len(ops):
+                    return ops[i]
             if v.op == "tupov":
                 inner = v.args[0]
                 if i == 0:
